@@ -1,0 +1,53 @@
+//go:build verif
+
+package transaction
+
+// Contracts for govc (/verif). Comment-only file: no executable code, not part of the default build.
+// C18: which bytes the hash of an intercepted transaction is computed from.
+
+/*@
+// the hash function as a function of the input string (uninterpreted)
+spec fn txHashOf(s string) string
+// the canonical encoding of a transaction's content: what protoMarshalizer.Marshal(tx) returns (uninterpreted)
+spec fn canonTx(tx *transaction.Transaction) string
+// "b is accepted by the decoder and decodes to the content of tx" (uninterpreted relation; the canonical encoding is one such b,
+// the decoder's contract gives no more: unknown fields are skipped, fields may come in any order, see data.BigIntCaster)
+spec fn decodesTo(b string, tx *transaction.Transaction) bool
+
+func (h hashing.Hasher) Compute(s string) (r []byte)
+  ensures function-of-input: str(r) == txHashOf(s)
+  assigns nothing
+
+func (c sharding.Coordinator) ComputeId(address []byte) (r uint32)
+  pure
+
+func (c sharding.Coordinator) SelfId() (r uint32)
+  pure
+
+// processFields: the hash is the hash of the RECEIVED bytes; shard attribution as computed by the coordinator.
+func (inTx *InterceptedTransaction) processFields(txBuff []byte) (err error)
+  requires collaborators-set: inTx.tx != nil && inTx.hasher != nil && inTx.coordinator != nil
+  ensures  never-fails: err == nil
+  ensures  hash-of-received-bytes: str(inTx.hash) == txHashOf(str(txBuff))
+  ensures  sender-shard: inTx.sndShard == inTx.coordinator.ComputeId(inTx.tx.SndAddr)
+  ensures  for-current-shard: inTx.isForCurrentShard <==> (inTx.rcvShard == inTx.coordinator.SelfId() || inTx.sndShard == inTx.coordinator.SelfId())
+  assigns  inTx.hash, inTx.sndShard, inTx.rcvShard, inTx.isForCurrentShard
+
+// EXPECTED TO FAIL (finding F18): the property's clause "hash == H(encoding of the content)", i.e. equal content ==> equal
+// hash. It would need decodesTo(b, tx) ==> b == canonTx(tx), which the decoder does not give.
+// Reproduction with the real decoder, hasher and ed25519 signature: $VF/repro/C18_F18_test.go.
+lemma tx-hash-of-content
+  vars inTx *InterceptedTransaction, txBuff []byte
+  hyp  inTx.tx != nil && inTx.hasher != nil && inTx.coordinator != nil
+  hyp  accepted: decodesTo(str(txBuff), inTx.tx) && decodesTo(canonTx(inTx.tx), inTx.tx)
+  call err = inTx.processFields(txBuff)
+  concl hash-of-content: str(inTx.hash) == txHashOf(canonTx(inTx.tx))
+
+// what does hold: the canonical encoding gets the canonical hash
+lemma tx-hash-of-canonical-bytes
+  vars inTx *InterceptedTransaction, txBuff []byte
+  hyp  inTx.tx != nil && inTx.hasher != nil && inTx.coordinator != nil
+  hyp  canonical: str(txBuff) == canonTx(inTx.tx)
+  call err = inTx.processFields(txBuff)
+  concl hash-of-content: str(inTx.hash) == txHashOf(canonTx(inTx.tx))
+@*/
